@@ -285,7 +285,17 @@ func runCase(line string) caseResult {
 			emit(i, "SNAP", "ok")
 		case "ISO":
 			if h := c.resolve(arg(1)); h != nil {
+				_, seq0 := h.lis.lastReport()
 				c.net.isolate(h.addr, c.addrs)
+				if arg(1) == "F" || (arg(1) == "L" && c.cfg.cq) {
+					// the host that was cut off notices (it campaigns, or steps down for lack of a
+					// quorum): its listener is told; later CHKs compare that with its GetLeaderID
+					if waitFor(3*time.Second, func() bool { _, seq := h.lis.lastReport(); return seq != seq0 }) {
+						c.mon.count("isolated_host_noticed")
+					} else {
+						c.mon.inc("isolated-host-did-not-notice")
+					}
+				}
 				if arg(1) == "L" || arg(1) == "F" {
 					// let the others notice: an election on the other side (by condition, bounded)
 					c.electionAfterIsolation(h)
@@ -553,7 +563,9 @@ func (c *cluster) chk() string {
 		}
 	}
 	// C03: on every live host, once things are quiet, GetLeaderID is what the host's listener was told last
-	c.settled()
+	if !c.mon.has("C03", "GetLeaderID on host") {
+		c.settled()
+	}
 	return strings.TrimSpace(fmt.Sprintf("%s %s",
 		"wpayload="+mask(c.cfg.prop, "C18", strconv.Itoa(bad))+" wsm="+mask(c.cfg.prop, "C18", strconv.FormatInt(atomic.LoadInt64(&mon.smCallsOnWitness), 10)),
 		"multi="+mask(c.cfg.prop, "C03", strconv.Itoa(c.conflicts()))))
@@ -574,47 +586,59 @@ func (c *cluster) conflicts() int {
 // settled: GetLeaderID on a host never keeps contradicting what the listener of that host was
 // told last. Both are fed by the same raft calls on two asynchronous paths (the event queue and
 // the engine's update), so they are compared by condition: only a difference seen at every one
-// of the polls of an 8 s window counts (a replica that keeps campaigning changes both every
+// of the polls of a 5 s window counts (a replica that keeps campaigning changes both every
 // election time-out, and each time they agree again within an engine cycle).
 func (c *cluster) settled() {
+	const window = 5 * time.Second
+	var wg sync.WaitGroup
+	var flagged int32 // one host that keeps differing is the verdict; the others need not wait the window out
 	for _, h := range c.hosts {
 		h := h
-		var detail string
-		polls, changes := 0, 0
-		h.with(func(nh *dragonboat.NodeHost) {
-			_, seq0 := h.lis.lastReport()
-			if seq0 == 0 {
-				return
-			}
-			agree := waitFor(8*time.Second, func() bool {
-				last, seq := h.lis.lastReport()
-				if seq != seq0 {
-					changes++
-					seq0 = seq
+		wg.Add(1)
+		go func() {
+			defer wg.Done()
+			var detail string
+			polls, changes := 0, 0
+			h.with(func(nh *dragonboat.NodeHost) {
+				_, seq0 := h.lis.lastReport()
+				if seq0 == 0 {
+					return
 				}
-				lid, term, valid, err := nh.GetLeaderID(shardID)
-				if err != nil || last.Term == 0 {
-					return true
+				agree := waitFor(window, func() bool {
+					if atomic.LoadInt32(&flagged) != 0 {
+						return true
+					}
+					last, seq := h.lis.lastReport()
+					if seq != seq0 {
+						changes++
+						seq0 = seq
+					}
+					lid, term, valid, err := nh.GetLeaderID(shardID)
+					if err != nil || last.Term == 0 {
+						return true
+					}
+					if lid == last.LeaderID && term == last.Term && valid == (lid != 0) {
+						return true
+					}
+					polls++
+					detail = fmt.Sprintf("GetLeaderID on host %s returns (leader %d, term %d, valid %v), its listener was last told (leader %d, term %d)",
+						h.addr, lid, term, valid, last.LeaderID, last.Term)
+					return false
+				})
+				if agree {
+					c.mon.count("leader_id_settled")
+					return
 				}
-				if lid == last.LeaderID && term == last.Term && valid == (lid != 0) {
-					return true
+				if polls < 200 {
+					c.mon.inc("leader-id-comparison-starved")
+					return
 				}
-				polls++
-				detail = fmt.Sprintf("GetLeaderID on host %s returns (leader %d, term %d, valid %v), its listener was last told (leader %d, term %d)",
-					h.addr, lid, term, valid, last.LeaderID, last.Term)
-				return false
+				atomic.StoreInt32(&flagged, 1)
+				c.mon.v("C03", "%s; they differed at each of %d polls during %v (%d new reports in between)", detail, polls, window, changes)
 			})
-			if agree {
-				c.mon.count("leader_id_settled")
-				return
-			}
-			if polls < 200 {
-				c.mon.inc("leader-id-comparison-starved")
-				return
-			}
-			c.mon.v("C03", "%s; they differed at each of %d polls during 8 s (%d new reports in between)", detail, polls, changes)
-		})
+		}()
 	}
+	wg.Wait()
 }
 
 // ---- run (parent) ----
